@@ -468,7 +468,9 @@ M('c07-fold-shift-concat', 'C07', SUMF, "            for i in range(n, shift):\n
 M('c07-worklist', 'C07', SUMF, "    while len(single) > 1 or len(pairs) > 1:\n        lev_single, _ = single[0]\n        lev_pairs, _, _ = pairs[0]\n        now_level = min(lev_single, lev_pairs)\n        if now_level == inf:\n            break\n        now_singles = []\n        now_pairs = []\n        while single[0][0] == now_level:\n            now_singles.append(single[0][1])\n            single.discard(single[0])\n        while pairs[0][0] == now_level:\n            now_pairs.append((pairs[0][1], pairs[0][2]))\n            pairs.discard(pairs[0])\n\n        next_solo = []",
   "    while len(single) > 1:\n        lev_single, _ = single[0]\n        lev_pairs, _, _ = pairs[0]\n        now_level = min(lev_single, lev_pairs)\n        if now_level == inf:\n            break\n        now_singles = []\n        now_pairs = []\n        while single[0][0] == now_level:\n            now_singles.append(single[0][1])\n            single.discard(single[0])\n        while pairs[0][0] == now_level:\n            now_pairs.append((pairs[0][1], pairs[0][2]))\n            pairs.discard(pairs[0])\n\n        next_solo = []", 'C07.WORKLIST')
 M('c08-karatsuba-shift', 'C08', MULF, "    res = add_sum_two_numbers_with_shift(circuit, mid, bd, res_mid)\n    final_res = add_sum_two_numbers_with_shift(circuit, 2 * mid, res, ac)\n\n    return reverse_if_big_endian(final_res[:out_size], big_endian)\n\n\ndef add_simple_karatsuba(", "    res = add_sum_two_numbers_with_shift(circuit, mid, bd, res_mid)\n    final_res = add_sum_two_numbers_with_shift(circuit, n, res, ac)\n\n    return reverse_if_big_endian(final_res[:out_size], big_endian)\n\n\ndef add_simple_karatsuba(", 'C08.KARATSUBA')
-M('c08-karatsuba-halves', 'C08', MULF, "    ac = add_simple_karatsuba(circuit, a, c)\n    bd = add_simple_karatsuba(circuit, b, d)", "    ac = add_simple_karatsuba(circuit, a, d)\n    bd = add_simple_karatsuba(circuit, b, c)", 'C08.KARATSUBA')
+# (add_simple_karatsuba / add_dadda_karatsuba are reached by no multiplication mode and are not exported: outside the statement of C08 --
+# the second one is in fact wrong on the pinned tree for big_endian=True, DESIGN 9.3 -- so a change there must leave the check silent)
+M('c08-karatsuba-halves', 'C08', MULF, "    ac = add_simple_karatsuba(circuit, a, c)\n    bd = add_simple_karatsuba(circuit, b, d)", "    ac = add_simple_karatsuba(circuit, a, d)\n    bd = add_simple_karatsuba(circuit, b, c)", None)
 M('c08-square-cross', 'C08', SQF, "    res = add_sum_two_numbers_with_shift(circuit, mid + 1, aa, ab)", "    res = add_sum_two_numbers_with_shift(circuit, mid, aa, ab)", 'C08.KARATSUBA')
 M('c09-fold-equal', 'C09', 'cirbo/synthesis/generation/arithmetics/equality.py', "    if len(bits) > len(input_labels):", "    if num > 2 ** len(input_labels):", 'C09.FOLD')
 M('c09-fold-plus-one-carry', 'C09', GENG, "                        (input_labels[i], carries[i - 1]),\n                    )\n                )\n            circuit.add_gate(\n                Gate(result_labels[i], gate.XOR, (input_labels[i], carries[i - 1]))", "                        (input_labels[i], carries[i - 1]),\n                    )\n                )\n            circuit.add_gate(\n                Gate(result_labels[i], gate.XOR, (input_labels[i], carries[0]))", 'C09.FOLD')
